@@ -53,3 +53,36 @@ package common
 //@   property C18
 //@   trusted closing an io.Closer (dynamic call) changes no state that Go code of this library can observe
 //@   modifies nothing
+
+//@ # ---- number-theoretic helpers (C19) ----
+//@ func ModInverse
+//@   property C19 C05
+//@   nonlinear
+//@   requires a != nil && n != nil && val(n) != 0
+//@   ensures reported: ok <==> gcd(val(a), val(n)) == 1
+//@   ensures none: !ok ==> ia == nil
+//@   ensures inverse: ok ==> ia != nil && fresh(ia) && (val(a) * val(ia) - 1) % val(n) == 0
+//@   modifies nothing
+//@   mustfail canary: !ok
+
+//@ func Crt
+//@   property C19
+//@   nonlinear
+//@   safety
+//@   requires a != nil && pa != nil && b != nil && pb != nil && val(pa) > 0 && val(pb) > 0 && gcd(val(pa), val(pb)) == 1
+//@   ensures range: result != nil && fresh(result) && 0 <= val(result) && val(result) < val(pa) * val(pb)
+//@ # not decided: the congruences result = a (mod pa), result = b (mod pb) - the solvers do not find the nonlinear argument
+//@   modifies nothing
+
+//@ global SmallPrimesProduct != nil && val(SmallPrimesProduct) == 16294579238595022365
+//@ global forall i in 0..len(SmallPrimes) :: SmallPrimes[i] >= 3
+
+//@ func RandomPrimeInRange
+//@   property C19 C05
+//@   safety
+//@   requires start <= 65536 && length <= 65536 && length >= 1
+//@   ensures prime: err == nil ==> p != nil && isprime(val(p)) && val(p) >= pow2(start)
+//@   ensures fail: err != nil ==> p == nil
+//@   loop 0 invariant p != nil && fresh(p) && bigMod != nil && fresh(bigMod) && offset != nil && fresh(offset) && startVal != nil && fresh(startVal) && val(startVal) == pow2(start) && len(bytes) == (length + 7) / 8 && fresh(bytes) && 1 <= b && b <= 8 && p != bigMod && p != offset && p != startVal && bigMod != offset && bigMod != startVal && offset != startVal
+//@   loop 1 invariant p != nil && fresh(p) && bigMod != nil && fresh(bigMod) && offset != nil && fresh(offset) && startVal != nil && fresh(startVal) && val(startVal) == pow2(start) && len(bytes) == (length + 7) / 8 && fresh(bytes) && 1 <= b && b <= 8 && 0 <= $i && $i <= len(SmallPrimes) && val(p) == val(startVal) + val(offset) && val(offset) >= 0 && p != bigMod && p != offset && p != startVal && bigMod != offset && bigMod != startVal && offset != startVal
+//@   mustfail canary: err != nil
